@@ -68,13 +68,13 @@ def fixBranch (ss : List Stmt) (i : Nat) (s : Stmt) : Outcome Stmt :=
     let hint := if short then 2 else 4
     if b ≤ i then
       let len := 1 + sumSize ss b (i + 1)
-      if short ∧ len > 129 then .diag
+      if (short ∧ len > 129) ∨ len > 0x10000 then .diag
       else match numericOfInt ((if short then (0x101 : Int) else 0x10001) - len) (some hint) .none with
         | .ok v => .ok { s with pkg := { s.pkg with additional := v } }
         | .error _ => .internal
     else
       let len := sumSize ss (i + 1) b
-      if short ∧ len > 127 then .diag
+      if (short ∧ len > 127) ∨ len > 0xFFFF then .diag
       else match numericOfInt len (some hint) .none with
         | .ok v => .ok { s with pkg := { s.pkg with additional := v } }
         | .error _ => .internal
